@@ -79,6 +79,14 @@ impl<'a> UnusedLiteralVisitor<'a> {
             .map(|pos| position.end_offset + pos + 1)
             .unwrap_or(src.len());
 
+        // Only remove the entire line if the literal is the only thing
+        // on it, otherwise just remove the literal itself.
+        let only_literal_on_line = src[line_start..position.start_offset].trim().is_empty()
+            && src[position.end_offset..line_end].trim().is_empty();
+        if !only_literal_on_line {
+            return position.clone();
+        }
+
         // Create a new position spanning the entire line
         let mut line_position = position.clone();
         line_position.start_offset = line_start;
